@@ -275,7 +275,7 @@ def canonicalize_job(eng, tables, prop, n_params, deadline, max_paths=None, init
 
     def harness(ctx):
         ctx.side["label_bytes"] = True
-        key = jobs_encode.gen_key(ctx, eng, tables, n_params)
+        key = jobs_encode.gen_key(ctx, eng, tables, n_params, text_max=2)
         params = f_(I, key, "params")
         # distinct values so that pairs can be tracked; distinct labels (a well-formed key)
         for i, t in enumerate(params.elems):
